@@ -245,8 +245,8 @@ DERIVED_OPS = (
 APPROX_OPS = ("cumsum",)
 
 
-def gen_derived(rng, r0, depth):
-    g = P.ProgGen(rng, ops=DERIVED_OPS, maxrank=3, maxdim=5, zero_axes=0.0)
+def gen_derived(rng, r0, depth, ops=DERIVED_OPS):
+    g = P.ProgGen(rng, ops=ops, maxrank=3, maxdim=5, zero_axes=0.0)
     g.env["x"] = r0
     g.tags["x"] = set()
     last = None
@@ -368,7 +368,9 @@ def check_case(ctx, case, progs=None, nprog=3, seeds=True):
         # choice arrays carry a 0-d meta: programs over them are a known failing class (probe_known (D))
         if r0.ndim >= 1 and r0.size and r0.dtype.kind in "fiu" and case["dist"] != "choice":
             for _ in range(nprog * 3):
-                p = gen_derived(rng, r0, rng.randint(1, 4))
+                # multinomial (extra_chunks axis): a rechunk pushed through an elementwise op onto it is a known failing class (probe_known (E))
+                ops = tuple(o for o in DERIVED_OPS if o != "rechunk") if case["dist"] == "multinomial" else DERIVED_OPS
+                p = gen_derived(rng, r0, rng.randint(1, 4), ops)
                 if p is not None:
                     progs.append(p)
                 if len(progs) >= nprog:
@@ -610,6 +612,22 @@ def probe_known(ctx):
                  {"kind": "RandomState", "seed": 3, "program": "x = da.random.RandomState(3).choice(9, size=(3,), chunks=2); da.cumsum(x[:, None], axis=0).compute()",
                   "error": repr(e)[:200], "meta_ndim": int(getattr(x._meta, "ndim", -1)) if "x" in dir() else None},
                  "a program derived from a choice array cannot be computed (the array's meta is 0-d while the array is 1-d)")
+    # (E) multinomial: a rechunk that splits the extra (category) axis, pushed through an elementwise op with another operand
+    try:
+        g = make_gen("default_rng", 5)
+        x = g.multinomial(7, [0.2, 0.3, 0.5], size=(2,), chunks=((2,),))
+        a = x.compute(**SYNC)
+        v2 = da.from_array(np.arange(3), chunks=3)
+        ctx.count(("probe", "multinomial-rechunk"))
+        got = da.where(x > v2, x, v2).rechunk(((2,), (1, 1, 1))).compute(**SYNC)
+        if not np.array_equal(got, np.where(a > np.arange(3), a, np.arange(3))):
+            ctx.fail("random:multinomial-rechunk-extra-axis", {"kind": "default_rng", "seed": 5, "got": got.tolist()}, "wrong data")
+    except Exception as e:
+        ctx.fail("random:multinomial-rechunk-extra-axis:compute-raises",
+                 {"kind": "default_rng", "seed": 5,
+                  "program": "x = da.random.default_rng(5).multinomial(7, [0.2,0.3,0.5], size=(2,), chunks=((2,),)); v2 = da.from_array(np.arange(3), chunks=3); "
+                             "da.where(x > v2, x, v2).rechunk(((2,), (1, 1, 1))).compute()", "error": repr(e)[:200]},
+                 "a rechunk of the category axis pushed through an elementwise op onto a multinomial array raises under optimisation (computes with from_array of the same values and with array.optimize-graph=False)")
 
 
 def search(ctx):
